@@ -57,7 +57,7 @@ func unfoldRules(c *core.Ctx) {
 		return
 	}
 	uf := ui.fn
-	an := c.Analyze(uf)
+	an := unfoldAnalysis(c, ui)
 	if problems(c, "loop-canonical", "hseq.unfold", an) {
 		return
 	}
